@@ -150,7 +150,8 @@ Inductive jnode : Type :=
 Definition xres := (jnode * fs * Z)%type.
 Definition xlres := (list jnode * fs * Z)%type.
 
-(* [dir] = v.DirPath, [idx] = *v.Index (shared by the whole walk) *)
+(* [dir] = v.DirPath, [idx] = *v.Index (shared by the whole walk; a uint64 in Go: the wrap after 2^64
+   files is not modelled) *)
 Fixpoint extract (dir : path) (idx : Z) (n : node) {struct n} : outcome xres :=
   let ext_list :=
     fix ext_list (dir : path) (idx : Z) (l : list node) : outcome xlres :=
@@ -178,7 +179,7 @@ Fixpoint extract (dir : path) (idx : Z) (n : node) {struct n} : outcome xres :=
       | [], None => Some (d ++ [N_ffs (f_guid h)], buf)
       | _, _ => None
       end in
-    do ks <- ext_list d ((idx + 1) mod U64) kids; let '(js, f, i') := ks in
+    do ks <- ext_list d (idx + 1) kids; let '(js, f, i') := ks in
     Ok (JFile h (option_map fst own) js, (match own with Some o => [o] | None => [] end) ++ f, i')
   | NSec h buf kids =>
     let d := dir ++ [C_dec (s_order h)] in
